@@ -202,14 +202,15 @@ def main():
             else:
                 cmd = [binp, "-test.run=^%s$" % name, "-test.v", "-test.timeout=%ds" % tt["timeout"], "-test.count=1"]
                 if test.get("rapid", True):
-                    cmd += ["-rapid.checks=%d" % tt["checks"], "-rapid.seed=%d" % rseed,
+                    has_ff = bool(replay and replay.get("rapid_failfile") and os.path.exists(replay["rapid_failfile"]))
+                    cmd += ["-rapid.checks=%d" % (1 if has_ff else tt["checks"]), "-rapid.seed=%d" % rseed,
                             "-rapid.shrinktime=%s" % ("20s" if tier == "quick" else "60s"), "-rapid.nofailfile=false"]
                     if replay and replay.get("rapid_failfile") and os.path.exists(replay["rapid_failfile"]):
                         cmd += ["-rapid.failfile=" + replay["rapid_failfile"]]
             if test.get("gomaxprocs"):
                 env["GOMAXPROCS"] = str(test["gomaxprocs"])
             tasks.append(dict(pid=pid, name=name, shard=sh, rundir=rd, env=env, cmd=cmd, timeout=tt["timeout"],
-                              rapid=test.get("rapid", True) and not test.get("fuzz"), checks=tt["checks"],
+                              rapid=test.get("rapid", True) and not test.get("fuzz"), checks=(1 if (replay and replay.get("rapid_failfile")) else tt["checks"]),
                               fuzz=bool(test.get("fuzz")), copy=test.get("copy", []), weight=test.get("weight", 1)))
     if not tasks:
         log("no tasks selected")
